@@ -2,7 +2,7 @@
 Shared by C02, C03, C04, C20."""
 import paths
 from facts import strip, show, walk, short, const_eval
-from rules import db_ops, key_info, same, strip_all, root, owner_path, sp
+from rules import db_ops, key_info, same, strip_all, root, owner_path, sp, loop_every_iteration
 
 F32_INF_BITS = 0x7F800000
 
@@ -631,6 +631,12 @@ def r_scoring(ctx, tv, rule='S8-SCORE'):
             # pushed as Reverse((OrderedFloat(distance), same id))
             pushes = [p for p in f.calls() if p.callee.endswith('::push') and paths.mentions_call(p.arg_term(1), c.bb)]
             okp = any(scored_pair(p.arg_term(1)) for p in pushes)
+            # ... for every candidate: no iteration of the scoring loop may skip the push (a dropped candidate is a missing result)
+            nxs = [x for x in f.calls() if x.callee.endswith('Iterator::next') and tv.nns_term is not None and any(y == tv.nns_term for y in walk(strip_all(x.arg_term(0))))]
+            good_p = [p for p in pushes if scored_pair(p.arg_term(1))]
+            every = bool(nxs) and bool(good_p) and all(loop_every_iteration(f, x, good_p[0].bb) for x in nxs)
+            ctx.check(every, 'S8-SCORE', f.path + '/every-candidate-scored', c.loc(), 'every deduplicated candidate is scored and queued for output',
+                      'the scoring loop of `%s` can skip a candidate (a path to the next candidate avoids the push): results would be missing whatever their distance' % f.path)
         else:
             # the closure yields Ok(Reverse((OrderedFloat(distance), its own id parameter))) and is mapped over the
             # deduplicated candidate list; the collected pairs feed the output heap
